@@ -195,11 +195,11 @@ Proof.
 Qed.
 
 (* round trip, signed: every size 1..16, both endiannesses, every value Lua accepts for the size *)
-Lemma pack_unpack_int_roundtrip a size little : 1 <= size <= 16 -> in_i64 a ->
+Lemma core_unpack_int_roundtrip a size little : 1 <= size <= 16 -> in_i64 a ->
   (size < 8 -> - 2 ^ (8 * size - 1) <= a < 2 ^ (8 * size - 1)) ->
-  nl_unpack_int (nl_pack_int a size little) size little true = Some a.
+  nl_unpack_int (pack_core (u64 a) size (a <? 0) little) size little true = Some a.
 Proof.
-  intros Hs Ha Hfit. unfold nl_unpack_int, nl_pack_int.
+  intros Hs Ha Hfit. unfold nl_unpack_int.
   rewrite unpack_of_pack by (try apply u64_range; lia). cbn zeta.
   destruct (Z.ltb_spec size 8) as [Hlt|Hge].
   - specialize (Hfit Hlt). f_equal.
@@ -246,11 +246,11 @@ Proof.
 Qed.
 
 (* round trip, unsigned, for the values both libraries accept *)
-Lemma pack_unpack_uint_roundtrip a size little : 1 <= size <= 16 -> in_i64 a ->
-  (size < 8 -> 0 <= a < 2 ^ (8 * size)) -> (8 < size -> 0 <= a) ->
-  nl_unpack_int (nl_pack_uint a size little) size little false = Some a.
+Lemma core_unpack_uint_roundtrip a size little : 1 <= size <= 16 -> in_i64 a ->
+  (size < 8 -> 0 <= a < 2 ^ (8 * size)) ->
+  nl_unpack_int (pack_core (u64 a) size false little) size little false = Some a.
 Proof.
-  intros Hs Ha Hfit Hpos. unfold nl_unpack_int, nl_pack_uint.
+  intros Hs Ha Hfit. unfold nl_unpack_int.
   rewrite unpack_of_pack by (try apply u64_range; lia). cbn zeta.
   destruct (Z.ltb_spec size 8) as [Hlt|Hge].
   - specialize (Hfit Hlt). f_equal.
@@ -261,10 +261,10 @@ Proof.
     rewrite Z.mod_small by lia. apply wrap64_id. unfold in_i64, minint, maxint, two63. lia.
   - rewrite wrap64_u64 by exact Ha.
     destruct (Z.ltb_spec 8 size) as [H9|H9]; [|reflexivity].
-    specialize (Hpos H9). cbn [negb orb].
-    assert (Htail : skipn 8 (sign_extend_tail (pack_bytes (Z.to_nat size) (u64 a)) size (a <? 0)) =
+    cbn [negb orb].
+    assert (Htail : skipn 8 (sign_extend_tail (pack_bytes (Z.to_nat size) (u64 a)) size false) =
                     repeat 0 (Z.to_nat (size - 8))).
-    { unfold sign_extend_tail. destruct (Z.ltb_spec a 0); [lia|]. rewrite andb_false_r.
+    { unfold sign_extend_tail. rewrite andb_false_r.
       rewrite (skipn_pack_bytes 8) by (pose proof (u64_range a); lia).
       change (256 ^ Z.of_nat 8) with two64. rewrite Z.div_small by apply u64_range.
       rewrite pack_bytes_zero. f_equal. lia. }
@@ -274,32 +274,72 @@ Proof.
     rewrite Hall. reflexivity.
 Qed.
 
-(* ---- the port's pack against Lua's ---- *)
-Lemma pack_int_eq_lua a size little r : lua_pack_int a size little = LVal r -> nl_pack_int a size little = r.
-Proof. unfold lua_pack_int, nl_pack_int. destruct (_ && _); [discriminate|]. intros [= <-]. reflexivity. Qed.
-
-Lemma pack_uint_eq_lua_partial a size little r : size <= 8 \/ 0 <= a ->
-  lua_pack_uint a size little = LVal r -> nl_pack_uint a size little = r.
+(* ---- the port's pack against Lua's (after 333c294): same bytes, same errors ---- *)
+Lemma lim_facts size : 1 <= size -> size < 8 ->
+  let L := 2 ^ (size * 8 - 1) in 1 <= L <= 36028797018963968 /\ 2 ^ (8 * size) = 2 * L /\ 2 ^ (8 * size - 1) = L.
 Proof.
-  intros Hc. unfold lua_pack_uint, nl_pack_uint. destruct (_ && _); [discriminate|]. intros [= <-].
-  unfold pack_core, sign_extend_tail.
-  destruct Hc as [Hc|Hc].
-  - destruct (Z.ltb_spec 8 size); [lia|]. reflexivity.
-  - destruct (Z.ltb_spec a 0); [lia|]. rewrite !andb_false_r. reflexivity.
+  intros H1 H8. cbn zeta. replace (8 * size - 1) with (size * 8 - 1) by lia.
+  split; [|split; [|reflexivity]].
+  - split; [change 1 with (2 ^ 0); apply Z.pow_le_mono_r; lia|].
+    change 36028797018963968 with (2 ^ 55). apply Z.pow_le_mono_r; lia.
+  - replace (8 * size) with (1 + (size * 8 - 1)) by lia. rewrite Z.pow_add_r by lia. reflexivity.
 Qed.
 
-(* full statements, both false today *)
-Definition pack_uint_eq_lua : Prop :=
-  forall a size little r, 1 <= size <= 16 -> in_i64 a ->
-    lua_pack_uint a size little = LVal r -> nl_pack_uint a size little = r.
-Lemma pack_uint_eq_lua_refuted : ~ pack_uint_eq_lua.
+Lemma pack_int_eq_lua a size little : in_i64 a -> 1 <= size <= 16 ->
+  match lua_pack_int a size little with
+  | LVal r => nl_pack_int a size little = Val r
+  | LErr => nl_pack_int a size little = Trap
+  end.
 Proof.
-  intros H. specialize (H (-1) 9 true _ ltac:(lia) ltac:(vm_compute; intuition congruence) eq_refl).
-  vm_compute in H. discriminate.
+  intros Ha Hs. unfold lua_pack_int, nl_pack_int, nl_packint. cbn [andb negb].
+  destruct (Z.ltb_spec size 8) as [Hlt|Hge]; cbn [andb]; [|reflexivity].
+  rewrite Z.shiftl_1_l. destruct (lim_facts size ltac:(lia) Hlt) as (HL & H2 & H1). cbn zeta in *.
+  rewrite H1. set (L := 2 ^ (size * 8 - 1)) in *. clearbody L.
+  unfold u64. unfold in_i64, minint, maxint, two63, two64 in *.
+  destruct (Z.leb_spec (- L) a); destruct (Z.ltb_spec a L); cbn [andb negb];
+    destruct (Z.ltb_spec ((a mod 18446744073709551616 + L mod 18446744073709551616) mod 18446744073709551616)
+                         ((2 * (L mod 18446744073709551616)) mod 18446744073709551616)); cbn [negb]; try reflexivity; lia.
 Qed.
 
-(* "never a fabricated value": where Lua raises "integer overflow" the port must not return *)
-Definition pack_int_no_fabrication : Prop :=
-  forall a size little, 1 <= size <= 16 -> in_i64 a -> lua_pack_int a size little = LErr -> False.
-Lemma pack_int_no_fabrication_refuted : ~ pack_int_no_fabrication.
-Proof. intros H. apply (H 300 1 true); [lia|vm_compute; intuition congruence|reflexivity]. Qed.
+Lemma pack_uint_eq_lua a size little : in_i64 a -> 1 <= size <= 16 ->
+  match lua_pack_uint a size little with
+  | LVal r => nl_pack_uint a size little = Val r
+  | LErr => nl_pack_uint a size little = Trap
+  end.
+Proof.
+  intros Ha Hs. unfold lua_pack_uint, nl_pack_uint, nl_packint. cbn [andb negb].
+  destruct (Z.ltb_spec size 8) as [Hlt|Hge]; cbn [andb]; [|reflexivity].
+  rewrite Z.shiftl_1_l. destruct (lim_facts size ltac:(lia) Hlt) as (HL & H2 & H1). cbn zeta in *.
+  rewrite H2. set (L := 2 ^ (size * 8 - 1)) in *. clearbody L.
+  unfold u64. unfold in_i64, minint, maxint, two63, two64 in *.
+  destruct (Z.ltb_spec (a mod 18446744073709551616) (2 * L));
+    destruct (Z.ltb_spec (a mod 18446744073709551616) ((2 * (L mod 18446744073709551616)) mod 18446744073709551616));
+    cbn [negb]; try reflexivity; lia.
+Qed.
+
+(* round trips through the port's pack: whatever Lua accepts comes back *)
+Lemma pack_unpack_int_roundtrip a size little : 1 <= size <= 16 -> in_i64 a ->
+  (size < 8 -> - 2 ^ (8 * size - 1) <= a < 2 ^ (8 * size - 1)) ->
+  exists bs, nl_pack_int a size little = Val bs /\ nl_unpack_int bs size little true = Some a.
+Proof.
+  intros Hs Ha Hfit. exists (pack_core (u64 a) size (a <? 0) little). split; [|apply core_unpack_int_roundtrip; assumption].
+  pose proof (pack_int_eq_lua a size little Ha Hs) as H. unfold lua_pack_int in H.
+  destruct (Z.ltb_spec size 8) as [Hlt|Hge]; cbn [andb] in H; [|exact H].
+  specialize (Hfit Hlt).
+  destruct (Z.leb_spec (- 2 ^ (8 * size - 1)) a); [|lia]. destruct (Z.ltb_spec a (2 ^ (8 * size - 1))); [|lia].
+  cbn [andb negb] in H. exact H.
+Qed.
+
+Lemma pack_unpack_uint_roundtrip a size little : 1 <= size <= 16 -> in_i64 a ->
+  (size < 8 -> 0 <= a < 2 ^ (8 * size)) ->
+  exists bs, nl_pack_uint a size little = Val bs /\ nl_unpack_int bs size little false = Some a.
+Proof.
+  intros Hs Ha Hfit. exists (pack_core (u64 a) size false little). split; [|apply core_unpack_uint_roundtrip; assumption].
+  pose proof (pack_uint_eq_lua a size little Ha Hs) as H. unfold lua_pack_uint in H.
+  destruct (Z.ltb_spec size 8) as [Hlt|Hge]; cbn [andb] in H; [|exact H].
+  specialize (Hfit Hlt).
+  assert (Hu : u64 a = a).
+  { assert (2 ^ (8 * size) <= 2 ^ 56) by (apply Z.pow_le_mono_r; lia). change (2 ^ 56) with 72057594037927936 in *.
+    apply u64_small. unfold two64. lia. }
+  rewrite Hu in *. destruct (Z.ltb_spec a (2 ^ (8 * size))); [|lia]. cbn [negb] in H. exact H.
+Qed.
